@@ -113,6 +113,25 @@ pub fn eval(case: &str) -> Out {
         // (the flagged-index defect F10 was repaired by c21fbfc; a difference here is a violation again)
         { fail = Some("pset-view|the PSET input yields different ids".to_string()); }
     } else if let Some(e) = ex { if e != (a, t) { fail = Some("extract-view|the extracted transaction's input yields different ids".to_string()); } }
+    // the public constructors of AssetId are further views of the same derivation: each recomputed from the fields
+    if fail.is_none() {
+        use elements::AssetId;
+        let one = { let mut x = [0u8; 32]; x[0] = 1; x }; let two = { let mut x = [0u8; 32]; x[0] = 2; x };
+        let ent = elements::AssetEntropy::from_byte_array(entropy);
+        let via: [(&str, [u8; 32], [u8; 32]); 3] = [
+            ("from_entropy", AssetId::from_entropy(ent).to_byte_array(), fmr(&[entropy, [0u8; 32]])),
+            ("reissuance_token_from_entropy(.., false)", AssetId::reissuance_token_from_entropy(ent, false).to_byte_array(), fmr(&[entropy, one])),
+            ("reissuance_token_from_entropy(.., true)", AssetId::reissuance_token_from_entropy(ent, true).to_byte_array(), fmr(&[entropy, two])) ];
+        for (name, got, want) in via { if got != want { fail = Some(format!("ctor-view|AssetId::{} does not follow the derivation", name)); } }
+        if zero_nonce && fail.is_none() {
+            let ch = ContractHash::from_byte_array(iss.asset_entropy);
+            let po = i.previous_output;
+            if AssetId::generate_asset_entropy(po, ch).to_byte_array() != entropy { fail = Some("ctor-view|AssetId::generate_asset_entropy does not follow the derivation".into()); }
+            else if AssetId::new_issuance(po, ch).to_byte_array() != fmr(&[entropy, [0u8; 32]]) { fail = Some("ctor-view|AssetId::new_issuance does not follow the derivation".into()); }
+            else if AssetId::new_reissuance_token(po, ch, false).to_byte_array() != fmr(&[entropy, one]) || AssetId::new_reissuance_token(po, ch, true).to_byte_array() != fmr(&[entropy, two]) {
+                fail = Some("ctor-view|AssetId::new_reissuance_token does not follow the derivation".into()); }
+        }
+    }
     let show = |p: (elements::AssetId, elements::AssetId)| format!("{} {}", hex(&p.0.to_byte_array()), hex(&p.1.to_byte_array()));
     Out { result: format!("ok {} {} {}", show((a, t)), show((pa, pt)), ex.map(show).unwrap_or_else(|| "- -".into())), pred_fail: fail }
 }
